@@ -280,7 +280,8 @@ class Engine:
                 has_converged = self.configuration.convergence_criteria.criteria(
                     alpha, ml, rmse
                 )
-                if has_converged or L == level_max:
+                # (no level above the maximum, also when it is not a whole number)
+                if has_converged or L + 1 > level_max:
                     self.statistics.set_mlmc_results(Nl=Nl, sum_cost=sum_cost)
                     return self.statistics
 
